@@ -102,6 +102,23 @@ K6_WITNESS = ({"maxsize": 0, "progs": [{"ops": [("send",), ("close",)]}, {"ops":
                                        {"ops": [("recvloop",)]}]}, [1, 2, 0, 3, 1, 4])
 
 
+WHAT = {
+    "F10-task-done-on-cancelled-get": "cancelling / timing out a receiver blocked in get() surfaces as ValueError('task_done() called too many "
+                                      "times') or makes a later receiver lose an item (task_done() runs in `finally` although get() was cancelled)",
+    "K6-cancel-overcount": "an item sent before close() is never received: a cancelled receiver was still counted in _waiting_receivers",
+    "stranded-item": "an item sent before close() is never received although a receiver observed the channel as done (no cancellation involved)",
+    "blocked-receiver": "a receiver is still blocked in get() after close() when nothing can run any more",
+    "lost-item": "an item was dequeued but neither delivered nor left in the queue",
+    "duplicate": "an item was received twice",
+    "invented": "an item was received that was never sent",
+    "order": "items of one sender were received out of order / the global receive order is not the send order",
+    "send-after-close": "a send/send_from that started after close() did not raise ChannelClosed",
+    "cancel-outcome": "a cancelled task did not end with CancelledError/TimeoutError",
+    "foreign-exception": "a task ended with an unexpected exception",
+    "harness": "the stepping loop met a handle or exception it does not know",
+}
+
+
 def has_cancel(cfg):
     return any(o[0] == "cancel" for p in cfg["progs"] for o in p["ops"])
 
@@ -268,7 +285,7 @@ def run(ctx):
 
     def record_fail(cfg, sch, verdicts):
         for cls, what in verdicts:
-            ctx.fail("oracle", what, cls=cls, input={"config": cfg, "schedule": sch})
+            ctx.fail("oracle", WHAT.get(cls, cls), cls=cls, input={"config": cfg, "schedule": sch}, detail=what)
 
     def note_run(cfg, sch, r):
         nonlocal nruns
@@ -306,8 +323,8 @@ def run(ctx):
                 descr.append({"config": cfg, "schedule": s2, "kind": "corpus " + fn})
 
     # 2. seeded random walks to quiescence
-    nconf = 170 if not ctx.thorough else 2500
-    per = 5 if not ctx.thorough else 10
+    nconf = 170 if not ctx.thorough else 1000
+    per = 5 if not ctx.thorough else 8
     for _ in range(nconf):
         cfg = gen_config(rng)
         for _ in range(per):
@@ -320,15 +337,20 @@ def run(ctx):
     ctx.sample({"config": descr[-1]["config"], "schedule": descr[-1]["schedule"]})
 
     # 3. exhaustive exploration of small configurations
-    t_end = time.time() + (18 if not ctx.thorough else 420)
+    t_end = time.time() + (12 if not ctx.thorough else 240)
+    max_edges = 3000 if not ctx.thorough else 50000
     confs = small_configs()
     if ctx.thorough:
         confs += [gen_config(rng) for _ in range(40)]
     nedges = 0
     for ci, cfg in enumerate(confs):
         share = time.time() + max(2.0, (t_end - time.time()) / max(1, len(confs) - ci))
+        nconf_edges = 0
         for sch, r, last in explore(cfg, mod, stub, 2500 if not ctx.thorough else 60000, 40, min(share, t_end)):
             nedges += 1
+            nconf_edges += 1
+            if nconf_edges > max_edges // len(confs):
+                break
             note_run(cfg, sch, r)
             if not r.final_ready:
                 record_fail(cfg, sch, oracle(cfg, r, mod))
@@ -343,7 +365,7 @@ def run(ctx):
     for i in bad[:10]:
         d = descr[i]
         model_val = lib.coq_eval(ctx, IMPORTS, pairs[i][0])
-        ctx.fail("corr", "model and implementation disagree on a trace (" + d["kind"] + ")", input=d,
+        ctx.fail("corr", "model and implementation disagree on a trace", input=d, case_kind=d["kind"],
                  expected_model=model_val[-1500:], observed_impl=pairs[i][1][-1500:],
                  theorem_or_correspondence="trace refinement Model/Channel.v <-> AsyncChannel under the stepping loop")
     if bad and not [f for f in ctx.failures if f["kind"] == "oracle" and f.get("cls") not in known_classes()]:
